@@ -10,6 +10,10 @@
     offset, option count, extended rcode / version / flags, payload size, compression flag and cache
     are those of a fresh parse of them (the C08 clause for this operation).  For answer / authority
     insertion the packet must be a response (the parser's QR gating: known finding qr-gating otherwise).
+    The TTL setter on a decompressed object (C09_set_ttl_on_decompressed): from any state satisfying the C08 invariant
+    [dinv] (see props/C08.v), with the cursor on a non-OPT record of the reading, a successful set_rr_ttl leaves a state
+    satisfying [dinv] whose reading is the old one with exactly that record's TTL replaced - no footprint hypothesis:
+    a pointer-free packet has no name that could be read through the four bytes written.
     For the other operations the refinement to the abstract message operations is decided each
     run by the correspondence and the abstract-effect oracle (gen/hist.py).  Also proved: the byte
     level effect of insertion (the record is spliced at the insertion offset of the packet with one
@@ -23,7 +27,7 @@
     second record in the implementation (known finding data-pointer). *)
 From DV Require Import Model.Base Model.NameCheck Model.Parser Model.Header Model.Readers Model.Uncompress
   Model.Mutate Spec.NameSpec Spec.PacketSpec Spec.RecordSpec Proofs.Hoare Proofs.HeaderBits Proofs.InsertLemmas
-  Spec.PlainSpec Proofs.WalkValues Proofs.SetTtl Proofs.WalkSkip Proofs.PlainWf Proofs.InsertSpec.
+  Spec.PlainSpec Proofs.WalkValues Proofs.SetTtl Proofs.WalkSkip Proofs.PlainWf Proofs.InsertSpec Proofs.SetTtlInv.
 From Coq Require Import Lia.
 
 Theorem C09_insert_appends : forall sec rr v it s',
@@ -195,3 +199,14 @@ Proof.
     rewrite E in Ht. destruct Ht as (a & b & Ha & Hb' & Et). vm_compute in Ha, Hb'. inversion Ha; inversion Hb'; subst. unfold is_opt. rewrite Et. reflexivity. }
   exists (r, x). split; [apply Hok; exact Hno|exact Hno].
 Qed.
+
+Theorem C09_set_ttl_on_decompressed : forall v it t s' qls qt lA lN lR r x,
+  dinv v -> (t < 4294967296)%N -> reading (pp_packet v) qls qt lA lN lR -> In (r, x) (lA ++ lN ++ lR) -> is_opt r = false ->
+  it_offset it <> None -> it_name_end it = rv_name_end r ->
+  m_set_ttl t (v, it) = (s', Ok tt) ->
+  dinv (fst s') /\ snd s' = it /\
+  exists lA' lN' lR' L1 L2, reading (pp_packet (fst s')) qls qt lA' lN' lR' /\
+    length lA' = length lA /\ length lN' = length lN /\ length lR' = length lR /\
+    lA ++ lN ++ lR = L1 ++ (r, x) :: L2 /\ lA' ++ lN' ++ lR' = L1 ++ (rv_with_ttl r t, x) :: L2.
+Proof. exact set_ttl_keeps_dinv. Qed.
+Print Assumptions C09_set_ttl_on_decompressed.
